@@ -40,6 +40,9 @@ RULE = ('Every entry point of the list below is called through a frame-condition
         'exit. Thorough tier additionally runs the repository test files with the same '
         'contracts patched in. Non-trivial: the entry point returned normally on a config with '
         '>=2 Buildables; distinct = (entry point, DAG sketch).')
+RULE_ADDITIONS = (' Added by the rounds of seeded changes (DESIGN 9.7): ' +
+                  'input-modified:trim_long_fields | original node edited | fix: shallow copy first; defaultdict arguments, keys present in the first configuration only')
+RULE = RULE + RULE_ADDITIONS
 ASSUMPTIONS = [
     'opaque mutable leaves are compared by identity only (a configured callable mutating an '
     'object it was handed is not a change fiddle made)',
